@@ -364,7 +364,7 @@ pub fn meta(tier: &str) -> Meta {
             a
         },
         bounds: bounds_json(&[("depth", json!(depth(tier))), ("senders", json!(2)), ("window_gaps", json!([1, 2, 1023, 1024, 1025]))]),
-        required_goals: vec!["out-of-order-delivery", "reload-mid-stream", "window-boundary"],
+        required_goals: vec!["out-of-order-delivery", "reload-mid-stream", "window-boundary", "prior-epoch-replays"],
         min_outcomes: 5,
         workers: 16,
     }
@@ -384,6 +384,106 @@ pub fn run(ctx: &mut Ctx) {
             item += 1;
         }
     }
+    // messages of several PAST epochs, delivered late in every order, each re-offered afterwards
+    for writes in 0u32..16 {
+        for order in 0..6usize {
+            for reload in [false, true] {
+                if ctx.mine(item) {
+                    prior_epoch_replays(writes, order, reload, ctx);
+                }
+                item += 1;
+            }
+        }
+    }
+}
+
+/// The sender sends one application message in each of three consecutive epochs; the receiver
+/// gets them only after the third commit, in the given order (one of the 6 permutations), having
+/// called write_to_storage after the commits selected by `writes` (bit 3: before the first) and,
+/// optionally, having been reloaded. Each message must decrypt exactly once: after all three
+/// were delivered every one of them is offered again, directly and after another write+reload.
+fn prior_epoch_replays(writes: u32, order: usize, reload: bool, ctx: &mut Ctx) {
+    const PERMS: [[usize; 3]; 6] = [[0, 1, 2], [0, 2, 1], [1, 0, 2], [1, 2, 0], [2, 0, 1], [2, 1, 0]];
+    let mut w = seed_world();
+    ctx.cur_trail = vec![format!("late messages of three past epochs: order {:?}, writes {writes:#06b}, reload {reload}", PERMS[order])];
+    ctx.path = vec![];
+    let r = w.run(|w| {
+        if writes & 8 != 0 {
+            let _ = w.gm(R).write_to_storage();
+        }
+        let mut msgs = vec![];
+        for i in 0..3 {
+            let Ok(m) = w.send(0, format!("message of epoch +{i}").as_bytes(), b"") else { return };
+            msgs.push(m);
+            let Ok(b) = w.commit(2, &CommitSpec::default()) else { return };
+            for p in [0usize, R] {
+                if w.process(p, &b.out.commit_message).is_err() {
+                    return;
+                }
+            }
+            if w.apply(2).is_err() {
+                return;
+            }
+            if writes & (1 << i) != 0 {
+                let _ = w.gm(R).write_to_storage();
+            }
+        }
+        if reload {
+            let _ = w.gm(R).write_to_storage();
+            let gid = w.group_id.clone();
+            match w.parties[R].client.load_group(&gid) {
+                Ok(g) => w.parties[R].group = Some(g),
+                Err(_) => return,
+            }
+        }
+        // retention of the default configuration is 3: every one of the three epochs is retained
+        let mut delivered = vec![];
+        for &i in &PERMS[order] {
+            ctx.eval();
+            match w.process(R, &msgs[i]) {
+                Ok(ReceivedMessage::ApplicationMessage(d)) if d.data() == format!("message of epoch +{i}").as_bytes() => {
+                    ctx.outcome("late-prior-epoch:decrypts");
+                    delivered.push(i);
+                }
+                Ok(_) => ctx.violation("late-message-wrong-content", format!("message of past epoch +{i} decrypted to something else")),
+                Err(e) => ctx.violation(format!("late-message-of-retained-epoch-refused|{}", err_name(&e)), format!("message of past epoch +{i} refused although 3 epochs are retained: {e:?}")),
+            }
+            // everything delivered so far is offered again right away
+            for &j in &delivered {
+                ctx.eval();
+                if w.process(R, &msgs[j]).is_ok() {
+                    ctx.violation("replay-accepted|application-of-prior-epoch", format!("the message of past epoch +{j} was accepted a second time (after delivering +{i})"));
+                } else {
+                    ctx.outcome("late-prior-epoch:replay-refused");
+                }
+            }
+        }
+        // and once more after the receiver persisted and came back
+        let _ = w.gm(R).write_to_storage();
+        let gid = w.group_id.clone();
+        if let Ok(g) = w.parties[R].client.load_group(&gid) {
+            w.parties[R].group = Some(g);
+            for &j in &delivered {
+                ctx.eval();
+                if w.process(R, &msgs[j]).is_ok() {
+                    ctx.violation("replay-accepted|application-of-prior-epoch-after-reload", format!("the message of past epoch +{j} was accepted again after write + reload"));
+                } else {
+                    ctx.outcome("late-prior-epoch:replay-refused-after-reload");
+                }
+            }
+        }
+        ctx.goal("prior-epoch-replays");
+    });
+    if r.is_err() {
+        let (loc, msg, lib) = take_panic();
+        if lib {
+            ctx.violation(format!("panic|{loc}"), msg);
+        } else {
+            crate::engine::machinery(&format!("harness panic at {loc}: {msg}"));
+        }
+    }
+    ctx.report.traces += 1;
+    ctx.report.transitions += 9;
 }
 
 pub fn replay(ctx: &mut Ctx, path: &[usize]) {
